@@ -65,6 +65,7 @@ def gen_program(rng, cid, size, ops_un=None, ops_bin=None, remap_p=0.08, apply_p
     _emit = p.emit
 
     p.mentions = []       # per handle: free variables (handles) its unfolding mentions
+    p.hasaxis = []        # per handle: the written term mentions x, y or z somewhere (syntactically)
 
     def emit(line, kind=None, size=1):
         h = _emit(line, kind)
@@ -79,6 +80,8 @@ def gen_program(rng, cid, size, ops_un=None, ops_bin=None, remap_p=0.08, apply_p
                     if tk.isdigit() and int(tk) < len(p.mentions):
                         ms |= p.mentions[int(tk)]
             p.mentions.append(ms)
+            p.hasaxis.append(toks[0] in ("x", "y", "z") or any(
+                tk.isdigit() and int(tk) < len(p.hasaxis) and p.hasaxis[int(tk)] for tk in toks[1:]))
         return h
     p.emit2 = emit
     hx = emit("x", "axis")
@@ -89,6 +92,7 @@ def gen_program(rng, cid, size, ops_un=None, ops_bin=None, remap_p=0.08, apply_p
     vars_ = []
     applied = {}
     remapped = []
+    p.axisfree_apply = set()
 
     def pick(allow_const=True):
         if allow_const and consts and rng.random() < 0.25:
@@ -123,6 +127,12 @@ def gen_program(rng, cid, size, ops_un=None, ops_bin=None, remap_p=0.08, apply_p
             trees.append(h)
         elif r < 0.18 + var_p + remap_p:
             t, a, b, c = pick(False), pick(), pick(), pick()
+            # a remap DIRECTLY on an apply node, preferably one whose body mentions no axis (the coordinates enter
+            # through the substituted value only: the remap must still reach them)
+            allap = [hh for hs_ in applied.values() for hh in hs_]
+            if allap and rng.random() < 0.5:
+                pref = [hh for hh in allap if hh in p.axisfree_apply]
+                t = rng.choice(pref if pref and rng.random() < 0.7 else allap)
             sz = S[t] * max(1, S[a] + S[b] + S[c])
             if sz > CAP:
                 continue
@@ -143,10 +153,18 @@ def gen_program(rng, cid, size, ops_un=None, ops_bin=None, remap_p=0.08, apply_p
                 t = rng.choice(applied[v])
                 if rng.random() < 0.5:
                     e = pick()
+            # a body that mentions the variable but no axis, a value that mentions an axis
+            elif rng.random() < 0.3:
+                cb = [hh for hh in trees if p.mentions[hh] and not p.hasaxis[hh]]
+                ce = [hh for hh in trees if p.hasaxis[hh]]
+                if cb and ce:
+                    t = rng.choice(cb); v = rng.choice(sorted(p.mentions[t])); e = rng.choice(ce)
             sz = S[t] * max(1, S[e])
             if sz > CAP:
                 continue
             h = emit(f"apply {t} {v} {e}", "tree", sz)
+            if not p.hasaxis[t]:
+                p.axisfree_apply.add(h)
             applied.setdefault(v, []).append(h)
             trees.append(h)
         elif r < 0.55:
